@@ -16,6 +16,18 @@ CHECKS = {
    "Trusts the reference Make/attack ray walk; bounded by BFS depth and families.", "DESIGN.md §5 C02"),
 }
 
+CHECKS.update({
+ "C06": ("seq", "model_checking", "complete enumeration of line occupancies vs ray walk; derived queries on BFS nodes",
+   "The table half of the property is decided completely: every occupancy subset of every line through every square (own square empty and occupied, off-line cross-talk squares added) goes through the public attack-board functions and is compared with a ray walk. The derived queries are compared with their geometric definitions on every node of the BFS closures and the pin/castling families.",
+   "Queen: the two halves are enumerated completely and jointly for the 12 nearest squares (QueenAttackboard is the union of the two look-ups); derived queries are bounded by the BFS depth.", "DESIGN.md §5 C06"),
+ "C07": ("seq", "model_checking", "explicit-state BFS + all push/pop histories; complete key-table probe",
+   "For 5 table seeds: incremental == from-scratch hash on every (node, move) of the BFS closures and families and after every push and every pop of all push sequences to depth n on game boards; the position->hash map over everything visited is a function and injective; every key of the table (read through Hash) is non-zero and pairwise distinct, so no single-component difference can cancel.",
+   "Bounded by BFS depth / history length; 2^-64 coincidences ignored as the property allows.", "DESIGN.md §5 C07"),
+ "C09": ("seq", "model_checking", "complete enumeration of pairs and triples over a score alphabet; all 2^32 floats for unary laws",
+   "All pairs and triples over won, lost, every mate distance an int8 can hold and ~40 boundary floats are checked against a rank-tuple model: agreement with the stated order, trichotomy, transitivity, negation involutive and order-reversing, one more ply order-preserving, Max/Min. Thorough also walks every non-NaN float32 payload through the unary and neighbour laws.",
+   "NaN and the Invalid score are not constructible scores. The int8 wrap-around at |k|=127/128 is a recorded known finding.", "DESIGN.md §5 C09"),
+})
+
 NOT_YET = {}
 
 def main():
